@@ -201,6 +201,12 @@ def classify(case, detail):
     return None
 
 
+def _values_alias(sql, table):
+    from vlib.props import C06
+
+    return C06._values_alias(sql, table)
+
+
 def _renamed_tables(sql):
     names = set()
     for m in re.finditer(r"rename\s+(?:table\s+)?(.*?)(?:;|$)", sql, flags=re.S):
@@ -226,6 +232,8 @@ KNOWN = {
     # columns with different candidates) collide on the exported id
     "K-dup-ids@C18": lambda case, sql, inv, d: inv == "ids:column" and bool(d.get("kinds")) and set(d["kinds"]) <= {"subquery", "subquery_or_unresolved_column"},
     "K-lateral-alias@C18": lambda case, sql, inv, d: inv == "tables" and "lateral view" in sql and not d["in_summaries_not_exported"],
+    "K-values-alias@C18": lambda case, sql, inv, d: inv == "tables" and not d["in_summaries_not_exported"] and bool(d["exported_not_in_summaries"])
+    and all(_values_alias(sql, t) for t in d["exported_not_in_summaries"]),
     "K-rename-orphan@C18": lambda case, sql, inv, d: inv == "tables" and "rename" in sql and not d["in_summaries_not_exported"]
     and {t.split(".")[-1] for t in d["exported_not_in_summaries"]} <= _renamed_tables(sql),
     "K-scalar-subquery-schema@C18": lambda case, sql, inv, d: inv == "tables" and not d["in_summaries_not_exported"]
